@@ -11,8 +11,16 @@ Core Lean only.
 namespace LyModel.Valid
 open LyModel LyModel.Tree
 
-mutual
-/-- `lyd_validate_subtree(root, …)`: the `LYD_TREE_DFS` over one subtree; `before` = the preceding siblings of the node -/
+/-- apply `f` to every sibling in turn; `f` sees the siblings already done in front of the node (for error paths) -/
+def walkList (f : List DNode → DNode → DNode × Out) : (before : List DNode) → List DNode → List DNode × Out
+  | _, [] => ([], {})
+  | before, n :: ns =>
+    let r1 := f before n
+    let r2 := walkList f (before ++ [r1.1]) ns
+    (r1.1 :: r2.1, r1.2 ++ r2.2)
+
+/-- `lyd_validate_subtree(root, …)`: the `LYD_TREE_DFS` over one subtree; `before` = the preceding siblings of the node.
+`fuel` bounds the depth (see `walkFuel`). -/
 def subtreeNode (X : SchemaX) (o : VOpts) : (fuel : Nat) → Cx → (before : List DNode) → DNode → DNode × Out
   | 0, _, _, n => (n, {})
   | fuel + 1, cx, before, .inner s f m ks =>
@@ -21,17 +29,12 @@ def subtreeNode (X : SchemaX) (o : VOpts) : (fuel : Nat) → Cx → (before : Li
     let r1 := validateNew X o cx' ks
     -- add nested defaults
     let r2 := implL X o cx'.keysOld (X.kidsOf (some s)) r1.1
-    let r3 := subtreeKids X o fuel cx'.keysOld [] r2.1
+    let r3 := walkList (subtreeNode X o fuel cx'.keysOld) [] r2.1
     (.inner s f m r3.1, r1.2 ++ r2.2 ++ r3.2)
   | _ + 1, _, _, t => (t, {})
-def subtreeKids (X : SchemaX) (o : VOpts) : (fuel : Nat) → Cx → (before : List DNode) → List DNode → List DNode × Out
-  | 0, _, _, ns => (ns, {})
-  | _ + 1, _, _, [] => ([], {})
-  | fuel + 1, cx, before, n :: ns =>
-    let r1 := subtreeNode X o fuel cx before n
-    let r2 := subtreeKids X o fuel cx (before ++ [r1.1]) ns
-    (r1.1 :: r2.1, r1.2 ++ r2.2)
-end
+
+def subtreeKids (X : SchemaX) (o : VOpts) (fuel : Nat) (cx : Cx) (before : List DNode) (ns : List DNode) : List DNode × Out :=
+  walkList (subtreeNode X o fuel cx) before ns
 
 structure VResult where
   tree : List DNode
